@@ -356,13 +356,22 @@ Simulate ==
                                              GatherOn(nat, BlSeq(U, HH, WW, KH, KW), WW), Cardinality(U))]
     /\ UNCHANGED << shape, ks, variant, kern, simopt, U, frames, op >>
 
-Next == Construct \/ Extract \/ Simulate
+\* A call on the built convolver that is refused part-way (e.g. a blurring image with more entries than the blurring
+\* region): an exception for the caller, and NOTHING else -- the frame tables and the operator every later call
+\* realises are unchanged (no state may survive a failed call).
+FailedCall ==
+    /\ phase = "observed"
+    /\ variant \in {"pos", "signed"}
+    /\ phase' = "observed-after-failed-call"
+    /\ UNCHANGED << shape, ks, variant, kern, simopt, U, frames, op, sim >>
+
+Next == Construct \/ Extract \/ Simulate \/ FailedCall
 Spec == Init /\ [][Next]_vars
 
 -----------------------------------------------------------------------------
 (* Layer 3: design-level theorems, checked by TLC on every instance *)
 
-Built == phase \in {"built", "observed", "simulated"}
+Built == phase \in {"built", "observed", "simulated", "observed-after-failed-call"}
 Seen == phase = "observed"
 NU == Cardinality(U)
 NB == Cardinality(Blurring(U, HH, WW, KH, KW))
@@ -398,6 +407,14 @@ BlurringIsMasksBlurring == Built => Blurring(U, HH, WW, KH, KW) = M!Blurring(U, 
 FramesImplementDefinition ==
     Seen => /\ op.img = OpImage(U, Kern, HH, WW, KH, KW)
             /\ op.blur = OpBlur(U, Kern, HH, WW, KH, KW)
+
+\* after a failed call the convolver still realises exactly the operator of the definition
+FailedCallLeavesOperator ==
+    phase = "observed-after-failed-call" =>
+        /\ frames = [img |-> ImageFrames(U, Kern, HH, WW, KH, KW), blur |-> BlurringFrames(U, Kern, HH, WW, KH, KW)]
+        /\ FramesOp(frames.img, NU) = OpImage(U, Kern, HH, WW, KH, KW)
+        /\ FramesOp(frames.blur, NU) = OpBlur(U, Kern, HH, WW, KH, KW)
+        /\ op.img = OpImage(U, Kern, HH, WW, KH, KW)
 
 \* genuinely zero-padded kernels, and only those, are the same operator as their unpadded core: removing a border
 \* row pair / column pair leaves the operator unchanged iff every ENTRY of the pair is zero (for a mask whose
